@@ -161,8 +161,6 @@ class StreamReaderBufferedProtocol(asyncio.BufferedProtocol):
         "__connection_lost_exception_tb",
         "__eof_reached",
         "__over_ssl",
-        "__nbytes_read",
-        "__postponed_cancel_limit",
     )
 
     max_size: int = 256 * 1024
@@ -190,8 +188,6 @@ class StreamReaderBufferedProtocol(asyncio.BufferedProtocol):
         self.__connection_lost_exception_tb: TracebackType | None = None
         self.__eof_reached: bool = False
         self.__over_ssl: bool = False
-        self.__nbytes_read: int = 0
-        self.__postponed_cancel_limit: int | None = None
         self._compute_read_buffer_limits()
 
     def connection_made(self, transport: asyncio.Transport) -> None:  # type: ignore[override]
@@ -290,7 +286,6 @@ class StreamReaderBufferedProtocol(asyncio.BufferedProtocol):
                 self.__buffer_nbytes_written = 0
         else:
             data = b""
-        self.__nbytes_read += len(data)
         self._maybe_resume_transport()
         return data
 
@@ -320,7 +315,6 @@ class StreamReaderBufferedProtocol(asyncio.BufferedProtocol):
                         buffer[:nbytes_written] = protocol_buffer_written
                         self.__buffer_nbytes_written = 0
 
-            self.__nbytes_read += nbytes_written
             self._maybe_resume_transport()
             return nbytes_written
 
@@ -339,19 +333,12 @@ class StreamReaderBufferedProtocol(asyncio.BufferedProtocol):
             nbytes_written_in_external_buffer: int | None
             if self.__buffer_nbytes_written or self.__eof_reached:
                 self.__read_waiter.set_result(None)
-                # There is something to return right now: this checkpoint must not turn a pending cancellation
-                # (e.g. a scope whose deadline has already passed, for a polling call) into "nothing received".
-                # However, a cancellation must not be postponed for as long as the peer keeps the buffer filled:
-                # it only lets the reader take what was in the buffer by the time it has been postponed here.
-                current_task = TaskUtils.current_asyncio_task(self.__loop)
-                if not current_task.cancelling():
-                    self.__postponed_cancel_limit = None
-                if self.__postponed_cancel_limit is not None and self.__nbytes_read >= self.__postponed_cancel_limit:
+                # Checkpoint, except for a polling call (e.g. within a scope whose deadline had already passed when the task
+                # got here): it must not turn into "nothing received" although there is something to return right now.
+                # NOTE: Do not shield from cancellation instead. A task whose peer keeps the buffer filled
+                #       would postpone a cancellation again and again.
+                if not TaskUtils.current_task_is_polling(self.__loop):
                     await TaskUtils.coro_yield()
-                else:
-                    await TaskUtils.cancel_shielded_coro_yield()
-                    if self.__postponed_cancel_limit is None and current_task.cancelling():
-                        self.__postponed_cancel_limit = self.__nbytes_read + self.__buffer_nbytes_written
                 nbytes_written_in_external_buffer = None
             else:
                 assert not self.__read_paused, "transport reading is paused"  # nosec assert_used
